@@ -244,7 +244,13 @@ def step (s : DState) (toks : List String) : DState × String :=
     ({ s with opts := o, filters := fs }, showFilters fs)
   | "req" :: attrs =>
     let r := parseReq attrs
-    (s, s!"{decTok (evalGs s.filters r)} {decTok (specDecisionOn s.wl s.bundle s.custom s.opts.forTCP s.policies r)}")
+    -- decision of the generated filters, decision of the statement, ext_authz filters consulted (provider part of
+    -- the id prefix they look for), providers the statement says must be asked
+    let asked := (extAuthzEnabled s.filters none r).map fun p =>
+      if hasPrefix (extPrefix []) p then p.drop (extPrefix []).length else '?' :: p
+    let mustAsk := specAsksOn s.wl s.bundle s.custom s.opts.forTCP s.opts.shapeTCP s.policies r
+    (s, s!"{decTok (evalGs s.filters r)} {decTok (specDecisionOn s.wl s.bundle s.custom s.opts.forTCP s.policies r)} " ++
+        s!"ext={encList (asked.map String.ofList)} ask={encList (mustAsk.map String.ofList)}")
   | _ => (s, "bad-op")
 
 /-- Stream `hyps` (not compared with the implementation): for every `req` line, whether the
@@ -260,7 +266,10 @@ def stepHyps (s : DState) (toks : List String) : DState × String :=
     let scope := sel.all fun p => p.rules.all fun ru => ruleInScope s.opts r p.ns ru
     (s, s!"hyps={boolTok (hypsOnB s.opts sel r)} tr={boolTok (translatableB s.opts sel)} " ++
         s!"compiled={decTok (evalGs s.filters r)} spec={decTok (specDecisionOn s.wl s.bundle s.custom s.opts.forTCP s.policies r)} " ++
-        s!"mig={boolTok mig} scope={boolTok scope} names={boolTok (entriesDistinctB s.opts sel)}")
+        s!"mig={boolTok mig} scope={boolTok scope} names={boolTok (entriesDistinctB s.opts sel)} " ++
+        s!"iso={boolTok (customIsolatedB s.opts sel)} " ++
+        s!"ext={encList ((extAuthzEnabled s.filters none r).map String.ofList)} " ++
+        s!"ask={encList ((specAsksOn s.wl s.bundle s.custom s.opts.forTCP s.opts.shapeTCP s.policies r).map (fun p => String.ofList (extPrefix p)))}")
   | "build" :: _ => let (s', _) := step s toks; (s', "built")
   | _ => step s toks
 
